@@ -418,6 +418,8 @@ pub enum Mode {
     Map(i64),
     /// Keeps values whose remainder modulo 2 equals the constant, and adds 100.
     Filter(i64),
+    /// Keeps values greater than or equal to the constant, and adds 100.
+    FilterGe(i64),
 }
 impl Mode {
     pub fn apply(&self, v: i64) -> Option<i64> {
@@ -426,6 +428,13 @@ impl Mode {
             Mode::Map(k) => Some(v + k),
             Mode::Filter(k) => {
                 if v.rem_euclid(2) == *k {
+                    Some(v + 100)
+                } else {
+                    None
+                }
+            }
+            Mode::FilterGe(k) => {
+                if v >= *k {
                     Some(v + 100)
                 } else {
                     None
@@ -521,6 +530,10 @@ pub struct ClockSpec {
     /// `init`): `None` = Synchronized, `Some(lag_ns)` = OutOfSync(lag).
     /// Calls beyond the list are answered `Synchronized`.
     pub answers: Vec<Option<u64>>,
+    /// (k, deadline, node): during the k-th call of `synchronize` the clock
+    /// itself schedules an event (tag 1) for `node` at the absolute deadline,
+    /// through a `Scheduler` handle.
+    pub schedules: Vec<(usize, i64, usize)>,
 }
 
 #[derive(Clone, Debug, PartialEq, Eq, Hash)]
@@ -547,7 +560,7 @@ impl BenchSpec {
             srcs: vec![],
             qsrcs: vec![],
             threads: 1,
-            clock: ClockSpec { answers: vec![] },
+            clock: ClockSpec { answers: vec![], schedules: vec![] },
             tolerance_ns: None,
             timeout_ms: 0,
         }
@@ -874,11 +887,23 @@ impl ProtoModel for ProtoNode {
 struct RecClock {
     w: Arc<W>,
     answers: Vec<Option<u64>>,
+    schedules: Vec<(usize, i64, usize)>,
+    handle: Arc<Mutex<Option<(Scheduler, Arc<Vec<Address<Node>>>)>>>,
     k: usize,
 }
 impl Clock for RecClock {
     fn synchronize(&mut self, deadline: MonotonicTime) -> SyncStatus {
         self.w.log(Ev::Sync(off(deadline)));
+        for (k, at, node) in self.schedules.clone() {
+            if k == self.k {
+                if let Some((sched, addrs)) = &*self.handle.lock().unwrap() {
+                    let id = self.w.fresh_id();
+                    let now = off(sched.time());
+                    let res = sched.schedule_event(mt(at), Node::on_event, Msg::new(&self.w, id, 1, 900 + k as i64), &addrs[node]).map_err(se);
+                    self.w.log(Ev::Sched { by: None, id, kind: SKind::Once, at, now, target: Target::Node(node), tag: 1, val: 900 + k as i64, res });
+                }
+            }
+        }
         let a = self.answers.get(self.k).copied().flatten();
         self.k += 1;
         match a {
@@ -946,7 +971,7 @@ fn connect_out(out: &mut Output<Msg>, conns: &[Conn], addrs: &[Address<Node>], b
                     Node::on_event,
                     &addrs[node],
                 ),
-                Mode::Filter(_) => out.filter_map_connect(
+                Mode::Filter(_) | Mode::FilterGe(_) => out.filter_map_connect(
                     move |m: &Msg| {
                         mode.apply(m.val).map(|v| {
                             let mut m = m.clone();
@@ -968,7 +993,7 @@ fn connect_out(out: &mut Output<Msg>, conns: &[Conn], addrs: &[Address<Node>], b
                     },
                     &bufs[sink],
                 ),
-                Mode::Filter(_) => out.filter_map_connect_sink(
+                Mode::Filter(_) | Mode::FilterGe(_) => out.filter_map_connect_sink(
                     move |m: &Msg| {
                         mode.apply(m.val).map(|v| {
                             let mut m = m.clone();
@@ -989,7 +1014,7 @@ fn connect_out(out: &mut Output<Msg>, conns: &[Conn], addrs: &[Address<Node>], b
                     },
                     &slots[sink],
                 ),
-                Mode::Filter(_) => out.filter_map_connect_sink(
+                Mode::Filter(_) | Mode::FilterGe(_) => out.filter_map_connect_sink(
                     move |m: &Msg| {
                         mode.apply(m.val).map(|v| {
                             let mut m = m.clone();
@@ -1022,7 +1047,7 @@ fn connect_req(req: &mut Requestor<Msg, Reply>, conns: &[Conn], addrs: &[Address
                     Node::on_query,
                     &addrs[node],
                 ),
-                Mode::Filter(_) => req.filter_map_connect(
+                Mode::Filter(_) | Mode::FilterGe(_) => req.filter_map_connect(
                     move |m: &Msg| {
                         mode.apply(m.val).map(|v| {
                             let mut m = m.clone();
@@ -1054,7 +1079,7 @@ pub fn expected_replies(conns: &[Conn], v: i64) -> Vec<(usize, i64)> {
                 let r = match mode {
                     Mode::Plain => r,
                     Mode::Map(_) => r + 1000,
-                    Mode::Filter(_) => r + 2000,
+                    Mode::Filter(_) | Mode::FilterGe(_) => r + 2000,
                 };
                 out.push((node, r));
             }
@@ -1077,7 +1102,7 @@ fn connect_src(src: &mut EventSource<Msg>, conns: &[Conn], addrs: &[Address<Node
                     Node::on_event,
                     &addrs[node],
                 ),
-                Mode::Filter(_) => src.filter_map_connect(
+                Mode::Filter(_) | Mode::FilterGe(_) => src.filter_map_connect(
                     move |m: &Msg| {
                         mode.apply(m.val).map(|v| {
                             let mut m = m.clone();
@@ -1113,7 +1138,7 @@ fn connect_qsrc(src: &mut QuerySource<Msg, Reply>, conns: &[Conn], addrs: &[Addr
                     Node::on_query,
                     &addrs[node],
                 ),
-                Mode::Filter(_) => src.filter_map_connect(
+                Mode::Filter(_) | Mode::FilterGe(_) => src.filter_map_connect(
                     move |m: &Msg| {
                         mode.apply(m.val).map(|v| {
                             let mut m = m.clone();
@@ -1212,7 +1237,7 @@ pub fn build(spec: &Arc<BenchSpec>, w: &Arc<W>) -> Built {
                         Node::on_query,
                         a,
                     ),
-                    Mode::Filter(_) => UniRequestor::with_filter_map(
+                    Mode::Filter(_) | Mode::FilterGe(_) => UniRequestor::with_filter_map(
                         move |m: &Msg| {
                             mode.apply(m.val).map(|v| {
                                 let mut m = m.clone();
@@ -1312,9 +1337,12 @@ pub fn build(spec: &Arc<BenchSpec>, w: &Arc<W>) -> Built {
     drop(mailboxes);
     drop(nodes);
 
+    let clock_handle: Arc<Mutex<Option<(Scheduler, Arc<Vec<Address<Node>>>)>>> = Arc::new(Mutex::new(None));
     sim_init = sim_init.set_clock(RecClock {
         w: w.clone(),
         answers: spec.clock.answers.clone(),
+        schedules: spec.clock.schedules.clone(),
+        handle: clock_handle.clone(),
         k: 0,
     });
     if let Some(t) = spec.tolerance_ns {
@@ -1327,6 +1355,7 @@ pub fn build(spec: &Arc<BenchSpec>, w: &Arc<W>) -> Built {
     let r = panic::catch_unwind(AssertUnwindSafe(|| sim_init.init(mt(0))));
     let (simu, sched, res) = match r {
         Ok(Ok((simu, sched))) => {
+            *clock_handle.lock().unwrap() = Some((sched.clone(), addrs.clone()));
             let t = off(simu.time());
             w.log(Ev::Ret(0, Res::Ok, t));
             (Some(simu), Some(sched), Res::Ok)
